@@ -30,7 +30,7 @@ META = {
             'NOT decided: as C07.'),
     'C09': ('well-formed file: every writer unit has `bytes == format spec` postconditions written from the published layout, sharing no code with the readers: data blocks (bw_enc, bb_enc), zoom blocks (zoom_enc), header / zoom directory / summary / data count with frame conditions (hdr, write_pre, zoom_levels), chromosome tree (chrom_tree), R-tree layout (rt_layout), section offsets (sec_offsets), cross-stage consistency of the offsets (mutual), at most items_per_slot items of one chromosome per block (bw_batch, bb_batch, bw_zoom, bb_zoom); every staged byte reaches the file once, in order (tfb); the whole writer bodies around the pieces (mid, vals_tail, zoom_vals_whole, chrom_pipe).',
             'NOT decided: zlib stream validity (libdeflater assumed). The advertised buffer is the maximum over all data and zoom blocks in both writers (chrom_pipe, zoom_tail).'),
-    'C10': ('readers decode any spec-conforming bytes: block decoders proved against arithmetic decode specs with a symbolic byte order (bw_dec types 1-3, bb_dec, zoom_dec), header/zoom directory decode (info), R-tree node/item decoders for both byte orders (rt_readnode; rt_items Kani complete), node filter and search (rt_nodes, rt_search), iterators/glue/caches (iters, query_glue, cache, bw_values).',
+    'C10': ('readers decode any spec-conforming bytes: block decoders proved against arithmetic decode specs with a symbolic byte order (bw_dec types 1-3, bb_dec, zoom_dec), block fetch: `read_block_data` whole (raw bytes when the header advertises no inflate size, else exactly the inflated bytes, no padding), the plain `get_block_data`, and the prologues of the decoders, which hand exactly those bytes to the decoding loops (blk_read), header/zoom directory decode (info), R-tree node/item decoders for both byte orders (rt_readnode; rt_items Kani complete), node filter and search (rt_nodes, rt_search), iterators/glue/caches (iters, query_glue, cache, bw_values).',
             'Chromosome trees of any depth, both byte orders, are decoded to exactly the stored (name, id, size) rows (chrom_rd); summary block and data count read at the offsets the header names (summary_io); open/cached/reopen/into_inner plumbing and the error conversions behind the queries (rd_plumb). NOT decided: libdeflater inflate (assumed inverse of deflate); a file that is not well-formed is outside the property.'),
     'C12': ('staging buffer: sequential protocol of the real TempFileBufferWriter/TempFileBuffer methods against a ghost `written` stream; every order of whole operations delivers d0 ++ written (tfb); a consumer that arrives before the producer has published reads the cell only after waiting (the token distinguishes the cell\'s current from its eventual value).',
             'ASSUMED, not proved: each method touches shared state through single linearizable swaps, so every interleaving is equivalent to an order of whole operations; that a wait returns at all (wake-ups, deadlock freedom) is not modelled: `wait_closed` returns the value the cell holds once the producer has published.'),
